@@ -669,6 +669,16 @@ def expected_findings(spec, opts):
                                       bool(c.get("mask")), c.get("vp"), c.get("measure"),
                                       None if not b else [b["n"], b["props"], b.get("vbase", ("own", j)), b.get("vdelta")]]))
         return sorted(out)
+    dimc = {}
+    for j, c in enumerate(cons):
+        if c["type"] == "dim" and len(c["axes"]) == 1:
+            b = c.get("bounds")
+            dimc.setdefault(lib.canon([c["props"], c.get("dtype"), spec["axes"][c["axes"][0]]["size"], c.get("vbase", ("own", j)),
+                                       c.get("vdelta"), c.get("vp"), bool(c.get("climatology")),
+                                       None if not b else [b["n"], b["props"], b.get("vbase", ("own", j)), b.get("vdelta")]]),
+                            set()).add(c["axes"][0])
+    if any(len(v) > 1 for v in dimc.values()):
+        out.append("equal-dimension-coordinates-share-a-netcdf-dimension")     # repaired by C01-fix3-2
     ac = [axis_content(a) for a in range(len(spec["axes"]))]
     if any(ac[a] and ac[a] == ac[b] and spec["axes"][a]["size"] == spec["axes"][b]["size"]
            for a in range(len(ac)) for b in range(a)):
@@ -732,6 +742,7 @@ SIG_SYMPTOMS = {
     "netcdf4-classic-fill-value-after-data": {"write_err"},
     "unspanned-size1-axis:no-coordinate": {"equals", "fp:axes", "fp:cell_methods"},   # a cell method may name the axis
     "twin-axes:equals-cannot-pair-indistinguishable-axes": {"equals"},
+    "index-variable-sample-dimension-name": {"names:indexsampledim"},
 }
 
 
@@ -916,6 +927,8 @@ def oracle(chk, cases, rows, stats):
             continue
         exp = expected_findings(c["spec"], c["options"]) if "spec" in c else (
             ["endian-big-read-back-dtype-not-equal"] if c["options"].get("endian") == "big" else [])
+        if "cs" in c and c["cs"]["ckind"] == "indexed" and c["cs"]["origin"] == "api" and (c["cs"].get("names") or {}).get("sample"):
+            exp.append("index-variable-sample-dimension-name")                 # repaired by C01-fix3-1
         if "example" in c and c["example"] in (3, 4, 7) and c["options"].get("fmt") == "NETCDF4_CLASSIC":
             exp.append("netcdf4-classic-fill-value-after-data")
         if "example" in c and c["example"] == 1:
